@@ -65,16 +65,18 @@ fn dfa_query(bytes: &[u8], kv: &Kv, d: &Dfa, lo: &Lo, hi: &Hi, rot: usize, ev: &
             return false;
         }
         Ok(Err(e)) => {
-            ev.violate("stream-invariant", format!("{} ({})", e, rangeq::show_q(lo, hi)), desc(kv, d.describe(), lo, hi));
+            ev.violate("search-mismatch", format!("{} ({})", e, rangeq::show_q(lo, hi)), desc(kv, d.describe(), lo, hi));
             return false;
         }
         Ok(Ok(g)) => g,
     };
+    let (got, breach) = got;
+    let diag = breach.as_ref().map(|b| format!(" [hook H3 diagnosis: {}]", b)).unwrap_or_default();
     let same = got.len() == want.len() && got.iter().zip(want.iter()).all(|(g, w)| g.0 == w.0 && g.1 == w.1);
     if !same {
         ev.violate(
             "search-mismatch",
-            format!("search_with_state {}: got {:?} want {:?}", rangeq::show_q(lo, hi), got.iter().map(|g| crate::json::show_bytes(&g.0)).collect::<Vec<_>>(), want.iter().map(|w| crate::json::show_bytes(&w.0)).collect::<Vec<_>>()),
+            format!("search_with_state {}: got {:?} want {:?}{}", rangeq::show_q(lo, hi), got.iter().map(|g| crate::json::show_bytes(&g.0)).collect::<Vec<_>>(), want.iter().map(|w| crate::json::show_bytes(&w.0)).collect::<Vec<_>>(), diag),
             desc(kv, d.describe(), lo, hi),
         );
         return false;
@@ -84,6 +86,9 @@ fn dfa_query(bytes: &[u8], kv: &Kv, d: &Dfa, lo: &Lo, hi: &Hi, rot: usize, ev: &
             ev.violate("reported-state", format!("search_with_state reported state {} for key {} but the automaton reaches {}", g.2, crate::json::show_bytes(&g.0), d.run(&g.0)), desc(kv, d.describe(), lo, hi));
             return false;
         }
+    }
+    if breach.is_some() {
+        ev.count("hook:invariant-breach-with-correct-output(recorded, not judged)");
     }
     // one wrapper API in rotation
     let r = guard(|| -> Result<(), String> {
@@ -399,12 +404,12 @@ pub fn run(ctx: &Ctx) -> i32 {
                         s
                     };
                     match guard(|| rangeq::monitored(&fst, &dense, lo, hi, &runner, &mut hooks)) {
-                        Ok(Ok(got)) => {
+                        Ok(Ok((got, _))) => {
                             if got.len() != want.len() || !got.iter().zip(want.iter()).all(|(g, w)| g.0 == w.0 && g.1 == w.1) {
                                 ev.violate("search-mismatch", format!("regex DFA /{}/ {}: {} results, oracle {}", p, rangeq::show_q(lo, hi), got.len(), want.len()), J::s(*p));
                             }
                         }
-                        Ok(Err(e)) => ev.violate("stream-invariant", format!("regex DFA /{}/: {}", p, e), J::s(*p)),
+                        Ok(Err(e)) => ev.violate("search-mismatch", format!("regex DFA /{}/: {}", p, e), J::s(*p)),
                         Err(pn) => ev.violate("search-panic", format!("regex DFA /{}/ panicked: {}", p, pn), J::s(*p)),
                     }
                     // sparse flavour
@@ -428,7 +433,7 @@ pub fn run(ctx: &Ctx) -> i32 {
         ev,
         Spec {
             level: "exploration",
-            rule: "one evaluation = one (automaton, FST, bounds) query: output keys/values/order compared with {k in model : in range and the independently run DFA accepts k}, reported states compared with the DFA run, every stack frame checked against run(dfa, key_buffer[..depth]) after construction and after every next() (hook H3); automata: ALL DFAs with <=2 states over 2 byte classes x ALL sound hint assignments, sampled 3-state DFAs and random DFAs <=8 states/2-4 classes with randomly weakened hints (hint-independence is decided by the hint-free oracle), shipped automata/combinators to depth 2 incl. Levenshtein (ASCII) against brute-force language semantics, regex-automata dense/sparse DFAs as fst-bin builds them; FSTs: all subsets of {a,b}^<=2, sampled subsets of {a,b}^<=3, words-10000; non-trivial = every query; distinct = (automaton, FST, query) triples, distinct by construction",
+            rule: "one evaluation = one (automaton, FST, bounds) query: output keys/values/order compared with {k in model : in range and the independently run DFA accepts k}, reported states compared with the DFA run, every stack frame compared with run(dfa, key_buffer[..depth]) after construction and after every next() (hook H3; a breach is attached as diagnosis to an output violation and otherwise only recorded); automata: ALL DFAs with <=2 states over 2 byte classes x ALL sound hint assignments, sampled 3-state DFAs and random DFAs <=8 states/2-4 classes with randomly weakened hints (hint-independence is decided by the hint-free oracle), shipped automata/combinators to depth 2 incl. Levenshtein (ASCII) against brute-force language semantics, regex-automata dense/sparse DFAs as fst-bin builds them; FSTs: all subsets of {a,b}^<=2, sampled subsets of {a,b}^<=3, words-10000; non-trivial = every query; distinct = (automaton, FST, query) triples, distinct by construction",
             assumptions: vec!["generated automata never implement accept_eof (outside the contract) and their hints are sound by construction (exact sets computed by reachability)".into()],
             floors: vec![
                 ("cov:dfas-with-dead-states", 10),
